@@ -97,18 +97,39 @@ static u64 op_follower(Rng& r) {
     pkt(true, ci + 1 + (u32)a.size(), si + 1 + (u32)b.size(), TCP::FIN | TCP::ACK, {}); pkt(false, si + 1 + (u32)b.size(), ci + 2 + (u32)a.size(), TCP::FIN | TCP::ACK, {});
     return mix(mix(h, got), cb);
 }
+// marks: which sub-steps really completed (filled only by the sequential reference run on the main thread)
+static thread_local std::map<std::string, u64>* tl_marks = nullptr;
+static inline void mark(const char* k) { if (tl_marks) ++(*tl_marks)[k]; }
+template <class F> static u64 guarded(const char* what, u64 h, F f) {   // one refused sub-step must not hide the ones after it
+    try { h = f(h); mark(what); } catch (const std::exception& e) { h = mix(h, fnv(std::string(typeid(e).name()))); if (tl_marks) ++(*tl_marks)[std::string(what) + ":threw:" + typeid(e).name()]; }
+    return h;
+}
 static u64 op_crypto(Rng& r) {
     u64 h = 7;
-    { Crypto::WEPDecrypter w; w.add_password(HWAddress<6>("00:0e:a6:6b:fb:69"), "abcde"); Dot11Data d(HWAddress<6>("00:0e:a6:6b:fb:69"), HWAddress<6>("00:12:f0:1b:f4:e7")); d.addr3(HWAddress<6>("00:0e:a6:6b:fb:69")); d.wep(1); d.to_ds(1);
-      Bytes body = r.bytes(8 + r.below(60)); d.inner_pdu(new RawPDU(body.data(), (u32)body.size())); h = mix(h, w.decrypt(d)); h = dig_pdu(d, h); }
-    { Crypto::WPA2Decrypter w; Bytes ptk = r.bytes(64); Crypto::WPA2::SessionKeys::ptk_type p(ptk.begin(), ptk.end()); HWAddress<6> ap("02:00:00:00:00:01"), stn("02:00:00:00:00:02");
+    h = guarded("crypto:wep", h, [&](u64 h) { Crypto::WEPDecrypter w; w.add_password(HWAddress<6>("00:0e:a6:6b:fb:69"), "abcde"); Dot11Data d(HWAddress<6>("00:0e:a6:6b:fb:69"), HWAddress<6>("00:12:f0:1b:f4:e7")); d.addr3(HWAddress<6>("00:0e:a6:6b:fb:69")); d.wep(1); d.to_ds(1);
+      Bytes body = r.bytes(8 + r.below(60)); d.inner_pdu(new RawPDU(body.data(), (u32)body.size())); h = mix(h, w.decrypt(d)); return dig_pdu(d, h); });
+    h = guarded("crypto:wpa2-explicit-keys", h, [&](u64 h) { Crypto::WPA2Decrypter w; Bytes ptk = r.bytes(Crypto::WPA2::SessionKeys::PTK_SIZE); Crypto::WPA2::SessionKeys::ptk_type p(ptk.begin(), ptk.end()); HWAddress<6> ap("02:00:00:00:00:01"), stn("02:00:00:00:00:02");
       w.add_decryption_keys(std::make_pair(ap, stn), Crypto::WPA2::SessionKeys(p, r.chance(1, 2)));
-      Dot11QoSData d(ap, stn); d.addr3(ap); d.to_ds(1); d.wep(1); Bytes body = r.bytes(20 + r.below(80)); d.inner_pdu(new RawPDU(body.data(), (u32)body.size())); RadioTap rt; rt.inner_pdu(d); h = mix(h, w.decrypt(rt)); h = mix(h, rt.size()); }
-    if (r.chance(1, 4)) { Crypto::WPA2::SupplicantData sd("passphrase" + std::to_string(r.below(4)), "ssid" + std::to_string(r.below(4))); h = fnv(sd.pmk().data(), sd.pmk().size(), h); }
+      Dot11QoSData d(ap, stn); d.addr3(ap); d.to_ds(1); d.wep(1); Bytes body = r.bytes(20 + r.below(80)); d.inner_pdu(new RawPDU(body.data(), (u32)body.size())); RadioTap rt; rt.inner_pdu(d); h = mix(h, w.decrypt(rt)); return mix(h, rt.size()); });
+    if (r.chance(1, 4)) h = guarded("crypto:pbkdf2", h, [&](u64 h) { Crypto::WPA2::SupplicantData sd("passphrase" + std::to_string(r.below(4)), "ssid" + std::to_string(r.below(4))); return fnv(sd.pmk().data(), sd.pmk().size(), h); });
     // a complete 4-way handshake + data frames from the unit tests' captures (PBKDF2, PRF, MIC verification, CCMP/TKIP)
-    if (r.chance(1, 3) && g_ccmp.size() >= 7 && g_tkip.size() >= 7) { bool ccmp = r.chance(1, 2); Crypto::WPA2Decrypter w; if (ccmp) w.add_ap_data("Induction", "Coherer"); else w.add_ap_data("libtinstest", "NODO");
-        for (const Bytes& b : (ccmp ? g_ccmp : g_tkip)) { try { RadioTap rt(b.data(), (u32)b.size()); bool ok = w.decrypt(rt); h = mix(h, ok); if (ok) h = dig_pdu(rt, h); } catch (const malformed_packet&) { h = mix(h, 0xbad); } }
-        h = mix(h, w.get_keys().size()); for (auto& kv : w.get_keys()) h = fnv(kv.second.get_ptk().data(), kv.second.get_ptk().size(), h); }
+    if (r.chance(1, 3) && g_ccmp.size() >= 7 && g_tkip.size() >= 7) h = guarded("crypto:handshake-capture", h, [&](u64 h) { bool ccmp = r.chance(1, 2); Crypto::WPA2Decrypter w; if (ccmp) w.add_ap_data("Induction", "Coherer"); else w.add_ap_data("libtinstest", "NODO");
+        u32 dec = 0; for (const Bytes& b : (ccmp ? g_ccmp : g_tkip)) { try { RadioTap rt(b.data(), (u32)b.size()); bool ok = w.decrypt(rt); h = mix(h, ok); if (ok) { h = dig_pdu(rt, h); ++dec; } } catch (const malformed_packet&) { h = mix(h, 0xbad); } }
+        h = mix(h, w.get_keys().size()); for (auto& kv : w.get_keys()) h = fnv(kv.second.get_ptk().data(), kv.second.get_ptk().size(), h);
+        if (dec) mark("crypto:handshake-capture:frames-decrypted"); if (!w.get_keys().empty()) mark("crypto:handshake-capture:keys-derived"); return h; });
+    // key derivation + EAPOL MIC verification in a tight loop, on this thread's own copies of two different handshakes: anything the derivation
+    // parks in storage shared between threads (inside libtins or behind the calls it makes) is overwritten by a neighbour working on the other handshake
+    if (r.chance(1, 2) && g_ccmp.size() >= 7 && g_tkip.size() >= 7) h = guarded("crypto:session-keys-loop", h, [&](u64 h) {
+        struct Hs { bool ready = false; std::vector<RSNHandshake> hs; Crypto::WPA2::SupplicantData::pmk_type pmk; };
+        static thread_local Hs cache[2];
+        for (int which = 0; which < 2; ++which) { Hs& c = cache[which]; if (c.ready) continue; c.ready = true;
+            RSNHandshakeCapturer cap; for (const Bytes& b : (which ? g_tkip : g_ccmp)) { try { RadioTap rt(b.data(), (u32)b.size()); cap.process_packet(rt); } catch (const malformed_packet&) {} }
+            c.hs.assign(cap.handshakes().begin(), cap.handshakes().end());
+            Crypto::WPA2::SupplicantData sd(which ? "libtinstest" : "Induction", which ? "NODO" : "Coherer"); c.pmk = sd.pmk(); }
+        for (u32 it = 0; it < 40; ++it) { Hs& c = cache[r.below(2)]; if (c.hs.empty()) { h = mix(h, 0x0e); continue; }
+            try { Crypto::WPA2::SessionKeys k(c.hs[0], c.pmk); h = fnv(k.get_ptk().data(), k.get_ptk().size(), h); h = mix(h, k.uses_ccmp()); mark("crypto:session-keys-derived"); }
+            catch (const Crypto::WPA2::invalid_handshake&) { h = mix(h, 0xbad4a5d); mark("crypto:session-keys-rejected"); } }
+        return h; });
     return h;
 }
 static u64 op_addresses(Rng& r) {
@@ -129,7 +150,7 @@ static u64 op_utils(Rng& r) {
 static u64 run_op(int kind, Rng& r) {
     try {
         switch (kind) { case 0: return op_parse(r); case 1: return op_build(r); case 2: return op_dns(r); case 3: return op_radiotap(r); case 4: return op_reassembly(r); case 5: return op_follower(r); case 6: return op_crypto(r); case 7: return op_addresses(r); default: return op_utils(r); }
-    } catch (const std::exception& e) { return mix(0xdead, fnv(std::string(typeid(e).name()))); }
+    } catch (const std::exception& e) { if (tl_marks) ++(*tl_marks)[std::string("op_threw:") + KIND[kind] + ":" + typeid(e).name()]; return mix(0xdead, fnv(std::string(typeid(e).name()))); }
 }
 static void work(ThreadCtx& c) {
     Rng r(c.seed); u64 h = 0;
@@ -137,7 +158,7 @@ static void work(ThreadCtx& c) {
         int kind = i == 0 ? c.first_kind : (int)r.below(NK);
         u64 seed2 = r.next(); Rng r2(seed2);
         u64 t0 = c.stamp ? g_ticket.fetch_add(1, std::memory_order_relaxed) : 0;
-        u64 d = run_op(kind, r2);
+        u64 d = run_op(kind, r2); if (tl_marks) ++(*tl_marks)[std::string("op_done:") + KIND[kind]];
         u64 t1 = c.stamp ? g_ticket.fetch_add(1, std::memory_order_relaxed) : 0;
         c.log.push_back({t0, t1, kind}); c.per_op.push_back(d); h = mix(h, d);
         if (c.stamp && (seed2 & 7) == 0) sched_yield();
@@ -159,7 +180,7 @@ int main(int argc, char** argv) {
         for (int t = 0; t < k; ++t) pthread_join(th[t], 0);
         pthread_barrier_destroy(&g_bar);
         // sequential reference: the same per-thread seeds, one after the other, on this thread
-        for (int t = 0; t < k; ++t) { ThreadCtx ref; ref.seed = ctx[t].seed; ref.first_kind = first; ref.nops = nops; ref.stamp = false; work(ref);
+        for (int t = 0; t < k; ++t) { ThreadCtx ref; ref.seed = ctx[t].seed; ref.first_kind = first; ref.nops = nops; ref.stamp = false; std::map<std::string, u64> marks; tl_marks = &marks; work(ref); tl_marks = nullptr; for (auto& m : marks) cnt(m.first, m.second);
             if (ref.digest != ctx[t].digest) { size_t i = 0; while (i < ref.per_op.size() && ref.per_op[i] == ctx[t].per_op[i]) ++i; int kind = i < ctx[t].log.size() ? ctx[t].log[i].kind : -1;
                 violation(std::string("digest-differs/") + (kind >= 0 ? KIND[kind] : "?"), "thread " + std::to_string(t) + " of " + std::to_string(k) + ": operation #" + std::to_string(i) + " (" + (kind >= 0 ? KIND[kind] : "?") + ") produced a different result than the same call sequence run alone"); }
             else cnt("thread_digests_equal"); }
